@@ -9,6 +9,7 @@ import JmesVerif.Model.Errors
 import JmesVerif.Model.Registry
 import JmesVerif.Model.SerdeWire
 import JmesVerif.Model.Convert
+import JmesVerif.Model.Threads
 /-!
 Line-protocol driver for the model side of the correspondence streams (DESIGN §4.2).
 `jmdriver <stream>` reads one case per line on stdin and writes one result line per case.
@@ -240,6 +241,42 @@ def streamTojm (fields : List String) : String :=
     let sh : Option Val → String := fun o => match o with | some v => "ok " ++ Enc.valStr v | none => "ERR"
     s!"gen={sh (convGeneric i)}\tspec={sh (convSpecialized i)}"
 
+def queryOutStr : QueryOut → String
+  | .compileErr e => "C " ++ compileErrStr e
+  | .result (.ok v) => "ok " ++ Enc.valStr v
+  | .result (.error e) => evalErrStr e
+
+/-- threads: same case format as the harness; prints what each thread's program yields run alone
+(by `C16_schedule_independence` that is what every schedule yields) -/
+def streamThreads (fields : List String) : String :=
+  match fields with
+  | [n, exprs, ds, progs] =>
+    match n.toNat? with
+    | none => "BADCASE"
+    | some n =>
+      let texts := ((exprs.splitOn ",").filter (· ≠ "")).map Enc.unhexStr
+      let docs := (ds.splitOn ";").map fun d => (Enc.parseVal d).getD .null
+      let programs := (progs.splitOn "|").map fun p => (p.splitOn ",").filter (· ≠ "")
+      let runOp (op : String) : String :=
+        let kind := (op.take 1).toString
+        match ((op.drop 1).toString).splitOn ":" with
+        | [e, d] =>
+          match e.toNat?, d.toNat? with
+          | some e, some d =>
+            let text := texts.getD (e % texts.length) ""
+            let doc := docs.getD (d % docs.length) .null
+            if kind == "s" then
+              match parseExpr text.toList with
+              | .ok (_, a) => queryOutStr (soloResult evalFuel (.searchShared a doc))
+              | .error _ => "uncompiled"
+            else queryOutStr (soloResult evalFuel (.compileSearch text.toList doc))
+          | _, _ => "BADOP"
+        | _ => "BADOP"
+      let per := (List.range n).map fun t =>
+        " ; ".intercalate ((programs.getD (t % programs.length) []).map runOp)
+      "sequential=" ++ " || ".intercalate per
+  | _ => "BADCASE"
+
 partial def loop (h : IO.FS.Stream) (out : IO.FS.Stream) (f : List String → String) : IO Unit := do
   let line ← h.getLine
   if line.isEmpty then return ()
@@ -259,5 +296,6 @@ def main (args : List String) : IO UInt32 := do
   | ["json"] => loop stdin stdout streamJson; return 0
   | ["serde"] => loop stdin stdout SerdeWire.stream; return 0
   | ["tojm"] => loop stdin stdout streamTojm; return 0
+  | ["threads"] => loop stdin stdout streamThreads; return 0
   | ["history"] => loop stdin stdout streamHistory; return 0
   | _ => IO.eprintln "usage: jmdriver <stream>"; return 2
